@@ -90,6 +90,37 @@ def _run(ck, m):
     newer = tm.get('Newer')
     others = {t for k, t in tm.items() if k != 'Newer'}
     region = {x for x in rb.reachable() if rb.dominates(newer, x) and not any(rb.dominates(o, x) for o in others)}
+    # the arm may have been moved into a private method (`resolve_with_newer(&key, &change, &old_value, old_version)`): it is then judged
+    # there, and what the rules say about `change.…` / `old_value.…` / `old_version` is read through the arguments of that call
+    pmap = None
+    arm_calls = [x for x in region if rb.term(x)['k'] == 'call' and not is_log(rb.term(x)) and P.bodies.get(callee(rb.term(x))) is not None
+                 and callee(rb.term(x)) != sb.id and P.bodies[callee(rb.term(x))].locals[0].endswith('bo::Response')
+                 and callee(rb.term(x)) in {h.id for h in P.private_helpers(rb)}]
+    has_own = any(rb.term(x)['k'] == 'call' and callee(rb.term(x)) == sb.id for x in region)
+    rb0 = rb
+    if arm_calls and not has_own and len(arm_calls) == 1:
+        t0 = rb.term(arm_calls[0])
+        hb0 = P.bodies[callee(t0)]
+        pmap = {}
+        for j, a0 in enumerate(t0['args']):
+            names = set()
+            for r in origins(rb, a0):
+                if r[0] == 'param' and r[1] == 2:
+                    names.add(tuple(q[2] for q in r[-1] if q[0] == 'f'))
+            if len(names) == 1:
+                pmap[j + 1] = list(next(iter(names)))
+        rb = hb0
+        region = set(rb.reachable())
+        newer = 0
+
+    def is_resp(r):
+        return r[0] == 'param' and ((pmap is None and r[1] == 2) or (pmap is not None and r[1] in pmap))
+
+    def flds_of(r):
+        f = [q[2] for q in r[-1] if q[0] == 'f']
+        if pmap is not None and r[0] == 'param' and r[1] in pmap:
+            return pmap[r[1]] + f
+        return f
     aggs = [(x, s['r']) for x in region for s in rb.blocks[x]['s'] if s['k'] == 'assign' and s['r']['k'] == 'agg'
             and s['r'].get('adt', '').endswith('bo::Response')]
     bad = [a['variant'] for _, a in aggs if a['variant'] in ('Error', 'VersionError')]
@@ -103,8 +134,8 @@ def _run(ck, m):
     for x, a in sets:
         vop = a['ops'][a['fields'].index('value')]
         for r in origins(rb, vop):
-            flds = [s[2] for s in r[-1] if s[0] == 'f']
-            if r[0] == 'param' and r[1] == 2 and 'old_value' in flds and flds[-1] == 'value':
+            flds = flds_of(r)
+            if is_resp(r) and 'old_value' in flds and flds[-1] == 'value':
                 okv = True
     ck.ob('C19.a', fn, 'keep-reports-stored-value', okv,
           'when the stored change is kept the reply carries the stored value' if okv else
@@ -117,7 +148,7 @@ def _run(ck, m):
             if s['k'] == 'assign' and s['r']['k'] == 'bin' and s['r']['op'] in ('Gt', 'Lt', 'Ge', 'Le'):
                 def side(o):
                     for r in origins(rb, o):
-                        flds = [q[2] for q in r[-1] if q[0] == 'f']
+                        flds = flds_of(r)
                         if flds[-1:] == ['opp_id']:
                             return 'change' if 'change' in flds else ('old' if 'old_value' in flds else '?')
                     return None
@@ -127,7 +158,12 @@ def _run(ck, m):
                     op = {'Gt': 'Lt', 'Lt': 'Gt', 'Ge': 'Le', 'Le': 'Ge'}[op]
                     a, b_ = b_, a
                 if a == 'change' and b_ == 'old':
+                    negated = op in ('Le', 'Lt')          # `change <= old` is `!(change > old)`: same test, edges swapped
+                    if negated:
+                        op = {'Le': 'Gt', 'Lt': 'Ge'}[op]
                     for (s2, tt, ft) in bool_switches(rb, local=s['l']['l']):
+                        if negated:
+                            tt, ft = ft, tt
                         t_store = any(rb.dominates(tt, y) for y in stores)
                         f_store = any(rb.dominates(ft, y) and not rb.dominates(tt, y) for y in stores)
                         t_set = any(rb.dominates(ft, y) for y, _ in sets)
@@ -167,13 +203,14 @@ def _run(ck, m):
                     for r2 in origins(rb, ct['args'][0], stop_at_calls=True):
                         if r2[0] == 'call' and len(rb.term(r2[1])['args']) >= 3:
                             for r3 in origins(rb, rb.term(r2[1])['args'][2]):
-                                flds = [q[2] for q in r3[-1] if q[0] == 'f']
-                                if r3[0] == 'param' and r3[1] == 2 and flds[-1:] == ['old_version']:
+                                flds = flds_of(r3)
+                                if is_resp(r3) and flds[-1:] == ['old_version']:
                                     ver_old = True
         okc = resolving and ver_old
         whyc = ('the re-applied change is Change::new(key, value, old_version).to_resolve_change()' if okc else
                 're-applied change: resolving=%s, carries the stored version=%s' % (resolving, ver_old))
     ck.ob('C19.c', fn, 'reapply-as-resolving', okc, whyc, rb.loc(newer))
+    rb = rb0
     # (d) defaults
     n = 0
     for b in P.user_bodies():
